@@ -369,7 +369,14 @@ pub fn c10_script(r: &mut Rng, _index: u64, _tier: Tier) -> (CaseCfg, Vec<Step>)
             }
             1 => s.push(Step::Publish(PubSpec { topic: "k".into(), payload: PayloadSpec::Fill { len, tag: i as u32, ascii: false }, qos: 1, retain: false, props: vec![], correlate: None, cancel_at: None })),
             4 if small_mps => s.push(Step::Publish(PubSpec { topic: "k".into(), payload: PayloadSpec::Fill { len: 40, tag: i as u32, ascii: false }, qos: 0, retain: false, props: vec![], correlate: None, cancel_at: None })),
-            2 => s.push(Step::Broker(BrokerAct::Send(SPacket::Publish { dup: false, qos: 0, retain: false, topic: "in".into(), pid: None, props: vec![], payload: vec![1] }))),
+            2 => {
+                // now and then the network delivers only the first bytes of it for a while: the
+                // waits that follow begin in the middle of an inbound packet
+                if r.chance(1, 3) {
+                    s.push(Step::Broker(BrokerAct::Gate { after: 1 + r.below(5), blocks: *r.pick(&[1u8, 2, 4]) }));
+                }
+                s.push(Step::Broker(BrokerAct::Send(SPacket::Publish { dup: false, qos: 0, retain: false, topic: "in".into(), pid: None, props: vec![], payload: vec![1] })));
+            }
             3 => s.push(Step::Broker(BrokerAct::Send(SPacket::Publish { dup: false, qos: 1, retain: false, topic: "in".into(), pid: Some(1 + i as u16), props: vec![], payload: vec![1] }))),
             _ => {}
         }
@@ -550,6 +557,19 @@ pub fn c04_script(r: &mut Rng, index: u64, _tier: Tier) -> (CaseCfg, Vec<Step>) 
         }
         return (cfg, s);
     }
+    if index % 12 == 5 {
+        // an inbound PUBLISH on either side of the three-byte / four-byte remaining-length boundary
+        // (2 MiB), in a receive buffer that holds it: delivered verbatim and acknowledged
+        let rl = *r.pick(&[2_097_151usize, 2_097_152, 2_097_153]);
+        let cfg = CaseCfg { rx: rl + 5 + *r.pick(&[0usize, 1, 64]), tx: 512, keepalive: 0, ..CaseCfg::default() };
+        let qos = 1 + r.below(2) as u8;
+        let mut s = vec![connect_with(SpMode::Force(false), AckMode::Immediate, vec![])];
+        s.push(Step::Broker(BrokerAct::Send(SPacket::Publish { dup: false, qos, retain: false, topic: "big".into(), pid: Some(7), props: vec![], payload: (0..rl - 8).map(|i| (i % 251) as u8).collect() })));
+        for _ in 0..4 {
+            s.push(poll0());
+        }
+        return (cfg, s);
+    }
     if index % 6 == 4 {
         // more inbound QoS 2 exchanges open at once than the client's table holds: what lies within
         // the window the client itself advertised in its CONNECT is surfaced, the rest refused
@@ -625,5 +645,125 @@ pub fn fresh_sessions_script(r: &mut Rng, index: u64, _tier: Tier) -> (CaseCfg, 
     }
     s.push(pubq(1, "last", 3, 1));
     s.push(poll0());
+    (cfg, s)
+}
+
+
+/// Shared by several checks: a session packet is taken by the transport in pieces, and the
+/// keep-alive deadline passes between two of them (slow transport), so that a PINGREQ falls
+/// due while a PUBLISH / SUBSCRIBE / PUBREL is half on the wire.
+pub fn ping_between_pieces_script(r: &mut Rng, _index: u64, _tier: Tier) -> (CaseCfg, Vec<Step>) {
+    let ka = *r.pick(&[1u16, 2, 4]);
+    let cfg = CaseCfg { rx: 128, tx: 1024, keepalive: ka, ..CaseCfg::default() };
+    let eff = ka as u64 * 1_000_000;
+    let lead = 5_000_000u64.min(eff / 2);
+    // the transport takes a few bytes per write and is busy for most of the ping interval after
+    // the first partial write of an operation
+    let policy = IoPolicy { write: *r.pick(&[Chunk::Fixed(4), Chunk::Fixed(8), Chunk::One]), slow_write_us: eff - lead - *r.pick(&[1u64, 1000, 100_000]), ..IoPolicy::default() };
+    let mut s = vec![Step::Connect(ConnectSpec { policy, faults: vec![], connack: ConnackSpec::ok(SpMode::Force(false)), broker: BrokerPolicy::default(), cancel_at: None })];
+    // a little time passes first, so that the pause inside the packet carries the clock past the deadline
+    s.push(Step::Advance(*r.pick(&[1u64, 1000, 200_000])));
+    for k in 0..r.range(1, 3) {
+        s.push(match r.below(4) {
+            0 => pubq(1, "pieces/a", 40 + k as u32, r.range(8, 40)),
+            1 => pubq(2, "pieces/b", 50 + k as u32, r.range(8, 40)),
+            2 => Step::Subscribe(SubSpec { filters: vec![FilterSpec { filter: "pieces/#".into(), max_qos: 1, no_local: false, rap: false, rh: 0 }], props: vec![], cancel_at: None }),
+            _ => Step::Unsubscribe(UnsubSpec { filters: vec!["pieces/long/filter/name".into()], props: vec![], cancel_at: None }),
+        });
+        s.push(Step::Poll { max_wait: eff, cancel_at: None });
+        s.push(poll0());
+    }
+    for _ in 0..6 {
+        s.push(Step::Poll { max_wait: eff / 2, cancel_at: None });
+    }
+    (cfg, s)
+}
+
+/// C11: an operation leaves its packet half written (cancelled), the next call is disconnect(),
+/// and the transport answers the write that would complete the packet with Ok(0) or an error.
+pub fn c11_script(r: &mut Rng, _index: u64, _tier: Tier) -> (CaseCfg, Vec<Step>) {
+    let cfg = CaseCfg { rx: 128, tx: 512, keepalive: 0, ..CaseCfg::default() };
+    let policy = IoPolicy { write: *r.pick(&[Chunk::One, Chunk::Fixed(3)]), pend_write: Pend::Always, ..IoPolicy::default() };
+    let mut s = vec![Step::Connect(ConnectSpec { policy, faults: vec![], connack: ConnackSpec::ok(SpMode::Force(false)), broker: BrokerPolicy { acks: AckMode::Hold, ping: AckMode::Immediate, fail_pct: 0, longform_pct: 0 }, cancel_at: None })];
+    // cancelled at its 2nd..5th await: one to three pieces of the packet are on the wire
+    let mut req = match r.below(3) {
+        0 => pubq(1, "half", 1, 6),
+        1 => pubq(2, "half", 2, 6),
+        _ => Step::Subscribe(SubSpec { filters: vec![FilterSpec { filter: "half/#".into(), max_qos: 1, no_local: false, rap: false, rh: 0 }], props: vec![], cancel_at: None }),
+    };
+    let at = Some(r.range(2, 5));
+    match &mut req {
+        Step::Publish(p) => p.cancel_at = at,
+        Step::Subscribe(p) => p.cancel_at = at,
+        _ => {}
+    }
+    s.push(req);
+    // the very next write is answered with Ok(0) / an error
+    let kind = match r.below(3) {
+        0 => FaultKind::WriteZero,
+        1 => FaultKind::Error(ErrKind::WriteZero),
+        _ => FaultKind::Error(ErrKind::BrokenPipe),
+    };
+    s.push(Step::Io { policy: None, faults: vec![FaultPlan { at: FaultAt::OutBytes(0), kind }] });
+    s.push(Step::Disconnect(DiscSpec { reason: *r.pick(&[None, Some(4u8)]), props: None, cancel_at: None }));
+    // the handle is dead now, whatever disconnect() returned
+    s.push(poll0());
+    s.push(pubq(1, "after", 3, 2));
+    s.push(pubq(0, "after", 4, 2));
+    s.push(Step::Disconnect(DiscSpec { reason: None, props: None, cancel_at: None }));
+    s.push(poll0());
+    (cfg, s)
+}
+
+/// C18: the broker's Maximum Packet Size is 5..9, the application sends the smallest possible
+/// QoS 2 publish (8 bytes); the PUBREL that follows its PUBREC is 5 bytes long and fits.
+pub fn c18_script(r: &mut Rng, _index: u64, _tier: Tier) -> (CaseCfg, Vec<Step>) {
+    use crate::refcodec::SPacket;
+    let cfg = CaseCfg { rx: 128, tx: 512, keepalive: 0, ..CaseCfg::default() };
+    let mps = *r.pick(&[5u32, 6, 7, 8, 9, 16]);
+    let mut s = vec![connect_with(SpMode::Force(false), AckMode::Hold, vec![Prop::MaximumPacketSize(mps)])];
+    let qos = 1 + r.below(2) as u8;
+    s.push(Step::Publish(PubSpec { topic: "a".into(), payload: PayloadSpec::Bytes(vec![]), qos, retain: false, props: vec![], correlate: None, cancel_at: None }));
+    s.push(poll0());
+    if qos == 2 {
+        s.push(Step::Broker(BrokerAct::Send(SPacket::PubRec { pid: 1, reason: *r.pick(&[None, Some(0u8), Some(0x10)]), props: None })));
+        s.push(poll0());
+        s.push(poll0());
+        s.push(Step::Broker(BrokerAct::Send(SPacket::PubComp { pid: 1, reason: None, props: None })));
+    } else {
+        s.push(Step::Broker(BrokerAct::Send(SPacket::PubAck { pid: 1, reason: None, props: None })));
+    }
+    s.push(poll0());
+    s.push(poll0());
+    (cfg, s)
+}
+
+/// C07: the flush right after the last byte of a QoS 1/2 PUBLISH fails; the session resumes; the
+/// identifier counter comes round to that identifier while the broker still holds the exchange.
+pub fn c07_flush_fault_script(r: &mut Rng, _index: u64, _tier: Tier) -> (CaseCfg, Vec<Step>) {
+    let cfg = CaseCfg { rx: 128, tx: 1024, keepalive: 0, ..CaseCfg::default() };
+    let mut s = vec![connect_with(SpMode::Force(false), AckMode::Hold, vec![])];
+    let first = *r.pick(&[1u16, 7, 65534, 65535]);
+    s.push(Step::SetNextPid(first));
+    // the n-th flush of this connection is the one after the PUBLISH (connect() used the first)
+    s.push(Step::Io { policy: None, faults: vec![FaultPlan { at: FaultAt::Flush(1), kind: FaultKind::Error(*r.pick(&[ErrKind::ConnectionReset, ErrKind::BrokenPipe, ErrKind::TimedOut])) }] });
+    s.push(pubq(1 + r.below(2) as u8, "lost/flush", 1, 4));
+    s.push(Step::DropConn);
+    s.push(connect_with(SpMode::Force(true), AckMode::Hold, vec![]));
+    s.push(poll0());
+    // the counter has come round
+    s.push(Step::SetNextPid(first));
+    for k in 0..r.range(1, 3) {
+        s.push(match r.below(3) {
+            0 => pubq(1, "again", 10 + k as u32, 2),
+            1 => Step::Subscribe(SubSpec { filters: vec![FilterSpec { filter: "again/#".into(), max_qos: 0, no_local: false, rap: false, rh: 0 }], props: vec![], cancel_at: None }),
+            _ => pubq(2, "again", 20 + k as u32, 2),
+        });
+    }
+    s.push(poll0());
+    s.push(Step::Broker(BrokerAct::Release { n: 99, order: Order::Fifo }));
+    for _ in 0..8 {
+        s.push(poll0());
+    }
     (cfg, s)
 }
